@@ -1,7 +1,7 @@
 // F2: computed types (keyof / indexed access / mapped / conditional / utility types) over a pool of
 // operand types × key arguments. Only combinations the reference can normalise (i.e. that are valid
 // TypeScript with a pinned-down meaning) are emitted.
-import { P, L, U, I, ObjT, Prop, Rec, Tup, ArrT, Ref, Param, Alias, Iface, Enum, EnumMember, Tpl, H } from "./spec.mjs";
+import { P, L, U, I, ObjT, Prop, Rec, Tup, ArrT, Ref, Param, Alias, Iface, Enum, EnumMember, Tpl, H, SetT, MapT } from "./spec.mjs";
 import { Prog } from "./ref.mjs";
 import { norm, Unsupported } from "./normalise.mjs";
 
@@ -44,6 +44,10 @@ export function f2Decls() {
     Alias("SC", ObjT([Prop("alt", Ref("Kind2"), true), Prop("kind", Ref("Kind2"))])),
     Alias("SD", ObjT([Prop("a", Ref("Pt"), true), Prop("b", Ref("Pt")), Prop("c", ArrT(Ref("Pt")))])),
     Alias("SL", ObjT([Prop("v", P("string")), Prop("next", Ref("SL"), true), Prop("kids", ArrT(Ref("SL")))])),
+    // recursion that closes only through a Set element / a Map value / a tuple rest; two recursive fields for mapped templates
+    Alias("SetRec", ObjT([Prop("v", P("string")), Prop("kids", SetT(Ref("SetRec")))])),
+    Alias("MapRec", ObjT([Prop("v", P("string")), Prop("m", MapT(P("string"), Ref("MapRec")))])),
+    Alias("Slots", ObjT([Prop("left", U(Ref("Tree"), P("null"))), Prop("right", U(Ref("Tree"), P("null"), P("undefined"))), Prop("mid", U(Ref("List"), P("null")))])),
     Alias("Flat", Mapped("K", Keyof(Param("T")), Index(Param("T"), Param("K"))), ["T"]),
     Alias("TR1", Tup([P("string")], P("number"))),
     Alias("TR2", Tup([P("string"), P("boolean")], P("number"))),
@@ -124,6 +128,9 @@ export function f2Types() {
     out.push(Util("Exclude", U(x, y, P("null")), P("null")), Util("Exclude", U(y, x, P("string")), P("string")));
   // recursive operands: the remainder is recursive through its own head, below its head, or not at all
   out.push(Util("Exclude", U(Ref("Tree"), P("string")), P("string")), Util("Exclude", U(Ref("List"), P("number"), P("string")), P("string")), Util("Exclude", U(ObjT([Prop("a", Ref("Tree"))]), P("null")), P("null")), Util("Exclude", U(ArrT(Ref("List")), P("string")), P("string")), Util("Exclude", U(Ref("Tree"), Ref("List")), Ref("List")));
+  out.push(Util("Exclude", U(Ref("SetRec"), P("string")), P("string")), Util("Exclude", U(Ref("MapRec"), P("string")), P("string")), Util("Exclude", U(ObjT([Prop("a", Ref("SetRec"))]), P("null")), P("null")));
+  // a mapped type whose template goes through the semantic engine once per key, each result recursive
+  out.push(Mapped("K", Keyof(Ref("Slots")), Util("Exclude", Index(Ref("Slots"), Param("K")), U(P("null"), P("undefined")))), Mapped("K", U(L("left"), L("mid")), Util("Exclude", Index(Ref("Slots"), Param("K")), P("null"))));
   // diamonds of alias unions in every position that unfolds a union of keys / distributes over members
   for (const d of [Ref("DAct"), Ref("DAct2"), U(Ref("DEd"), Ref("DAd"))]) {
     out.push(Util("Record", d, P("boolean")), Mapped("K", d, Param("K")), Mapped("K", d, P("number"), true), Util("Pick", Ref("DWide"), d), Util("Omit", Ref("DWide"), d));
